@@ -158,6 +158,44 @@ Proof.
   intros Hn. unfold step. cbn [step_gen sstep]. replace (n <? 0)%Z with true by (symmetry; apply Z.ltb_lt; exact Hn). split; reflexivity.
 Qed.
 
+(* ---- the state a recovered panic leaves behind: what happens to lastRead on every panicking path ----
+   Truncate out of range, Next with a negative count and WriteTo with an invalid count have already invalidated
+   lastRead when they panic (a following UnreadByte / UnreadRune fails, as on bytes.Buffer); a refused Grow and an
+   out-of-range ReWrite panic before touching anything *)
+Theorem truncate_panic_state b n : (n <> 0)%Z -> (n < 0 \/ zn (blen b) < n)%Z ->
+  step b (Truncate n) = (set_last b 0%Z, (st_trunc, [])).
+Proof.
+  intros H0 H. unfold step. cbn [step_gen]. replace (n =? 0)%Z with false by (symmetry; apply Z.eqb_neq; exact H0).
+  replace ((n <? 0)%Z || (zn (blen b) <? n)%Z) with true; [reflexivity|].
+  symmetry. apply orb_true_iff. destruct H as [H|H]; [left|right]; apply Z.ltb_lt; exact H.
+Qed.
+Theorem next_panic_state b n : (n < 0)%Z -> step b (Next n) = (set_last b 0%Z, (st_panic, [])).
+Proof. intros H. unfold step. cbn [step_gen]. replace (n <? 0)%Z with true by (symmetry; apply Z.ltb_lt; exact H). reflexivity. Qed.
+Theorem writeto_panic_state b m e : blen b <> 0 -> (zn (blen b) < m)%Z ->
+  step b (WriteTo m e) = (set_last b 0%Z, (st_bad_write, (-1)%Z :: live b)).
+Proof.
+  intros H0 H. unfold step. cbn [step_gen]. change (blen (set_last b 0%Z)) with (blen b).
+  replace (Nat.eqb (blen b) 0) with false by (symmetry; apply Nat.eqb_neq; exact H0).
+  replace (zn (blen b) <? m)%Z with true by (symmetry; apply Z.ltb_lt; exact H). reflexivity.
+Qed.
+Theorem rewrite_panic_state b pos p : rewrite_at (bytes b) pos p = Panic -> step b (ReWrite pos p) = (b, (st_panic, [])).
+Proof. intros H. unfold step. cbn [step_gen]. rewrite H. reflexivity. Qed.
+Theorem unread_after_invalidating_panic b :
+  snd (step (set_last b 0%Z) UnreadByte) = (st_unread, []) /\ snd (step (set_last b 0%Z) UnreadRune) = (st_unread, []).
+Proof. unfold step. cbn. split; reflexivity. Qed.
+(* the contract says the same: the last-read kind is None after these panics *)
+Theorem truncate_panic_contract s n : (n <> 0)%Z -> (n < 0 \/ zn (length (un s)) < n)%Z ->
+  sstep s (Truncate n) = (mk (un s) None (pre s), (st_trunc, [])).
+Proof.
+  intros H0 H. cbn [sstep]. replace (n =? 0)%Z with false by (symmetry; apply Z.eqb_neq; exact H0).
+  replace ((n <? 0)%Z || (zn (length (un s)) <? n)%Z) with true; [reflexivity|].
+  symmetry. apply orb_true_iff. destruct H as [H|H]; [left|right]; apply Z.ltb_lt; exact H.
+Qed.
+
+(* a method called on a nil *Buffer: String answers "<nil>", as a nil bytes.Buffer pointer does *)
+Theorem nil_string_contract b s : step b (ONil 0%Z) = (b, (st_ok, nil_string)) /\ sstep s (ONil 0%Z) = (s, (st_ok, nil_string)).
+Proof. split; reflexivity. Qed.
+
 (* ---- the five grow paths are all live ---- *)
 Definition mkb (l : list Z) (o c : nat) : buf := {| bytes := l; off := o; lastr := 0%Z; cap := c; isnil := false |}.
 Example grow_path_reset_if_empty : grow (mkb [1; 2]%Z 2 8) 3 = (mkb [0; 0; 0]%Z 0 8, 0).
@@ -181,7 +219,8 @@ Definition demo_history : list op :=
    Next 2%Z; OLen; OBytes; Truncate 5%Z; ReadFrom [([1; 2; 3]%Z, 0%Z); ([4]%Z, 5%Z)]; WriteTo 3%Z 0%Z; OString;
    WriteTo 6%Z 0%Z; Grow 1%Z; WriteByte 1%Z; ReadByte; UnreadByte; Reset; Read 1; Truncate 9%Z; Next (-1)%Z; Grow (-1)%Z;
    Grow 1125899906842624%Z; Grow 9223372036854775807%Z; Grow 4611686018427387903%Z; OLen;
-   Write [1; 2; 3; 4; 5]%Z; ReWrite 1%Z [9; 9]%Z; ReadByte; ReWrite 0%Z [8]%Z; UnreadByte; ReadByte; ReWrite 6%Z []%Z; OCap].
+   Write [1; 2; 3; 4; 5]%Z; ReWrite 1%Z [9; 9]%Z; ReadByte; ReWrite 0%Z [8]%Z; UnreadByte; ReadByte; ReWrite 6%Z []%Z; OCap; ONil 0%Z; ONil 1%Z;
+   ReadByte; Truncate 99%Z; UnreadByte; ReadByte; Next (-1)%Z; UnreadByte; ReadByte; Grow (-1)%Z; UnreadByte].
 Example demo_ok : ok_seq false (init_k IZero) (init_spec IZero) demo_history = true /\
                   run (init_buf IZero) demo_history = srun (init_spec IZero) demo_history.
 Proof. vm_compute. split; reflexivity. Qed.
